@@ -292,7 +292,7 @@ def execute(plan, ctx):
         ctx.fault("nan_missed_marker")
     saved = {}  # path -> (snapshot-able copy of what was saved, text) for complete, fault-free saves
     log = []  # delivery ops applied so far (for resume)
-    ckpt = None  # (path, len(log))
+    ckpt = None  # (path, len(log), text of the durable checkpoint document)
     uncertain = set()  # paths whose content is not asserted (failed / torn writes)
 
     def check_loaded(orig, loaded, text, how):
@@ -450,7 +450,7 @@ def execute(plan, ctx):
                     ok_c, cp = attempt(copy_of, acc)
                     saved[path] = (cp if ok_c else None, text)
                     uncertain.discard(path)
-                    ckpt = (path, len(log))
+                    ckpt = (path, len(log), text)
                     ctx.fault("checkpoint")
                 elif fs.exists(tmp):
                     del fs.files[tmp]
@@ -467,9 +467,8 @@ def execute(plan, ctx):
                         if op.get("torn") is not None:
                             torn = {path: max(k, 0)}
                             ctx.fault("crash_torn")
-                        if not (ckpt and ckpt[0] == path and op.get("torn") is None):
-                            uncertain.add(path)
-                            saved.pop(path, None)
+                        uncertain.add(path)
+                        saved.pop(path, None)
                 fs.crash(torn)
                 ctx.fault("crash_restart")
                 ctx.ev("proc", "crash", None, "torn" if torn else "clean")
@@ -487,7 +486,7 @@ def execute(plan, ctx):
                             ctx.probe("torn_or_stale_file_loaded")
                 # restart: only durable state survives
                 acc = None
-                if ckpt is not None and fs.exists(ckpt[0]) and ckpt[0] in saved:
+                if ckpt is not None and fs.visible(ckpt[0]) == ckpt[2]:
                     ok, acc = attempt(load_json, ckpt[0])
                     ctx.ev("proc", "restart-from-checkpoint", ckpt[0], "ok" if ok else exc_tag(acc))
                     if not ok:
